@@ -36,9 +36,10 @@ COMPONENTS = {
 }
 PROBES = ["some contest confirmed while another is not", "audit complete", "dry run then reset", "reset between rounds",
           "assertion confirmed with p exactly at limit", "contests with different limits", "misconfiguration injected",
-          "reference test raised", "contest with no assertions (uncontested)"]
+          "reference test raised", "contest with no assertions (uncontested)",
+          "record in the sample replaced in place, p-values set again"]
 
-MISCONFIG = ["risk-zero", "risk-negative", "risk-above-half", "winner-not-candidate", "winner-count", "too-many-winners",
+MISCONFIG = ["risk-zero", "risk-negative", "risk-above-half", "risk-just-above-half", "winner-not-candidate", "winner-count", "too-many-winners",
              "irv-two-winners", "unknown-choice-function", "negative-error-rate"]
 
 
@@ -66,6 +67,7 @@ def generate(rng, tier):
         rnd["dry_run"] = bool(rng.chance(0.3))
         rnd["reset_after"] = bool(rng.chance(0.2))
         rnd["summaries"] = rng.randint(0, 2)
+        rnd["correct_record"] = bool(rng.chance(0.3))
     tally_ok = (case["world"]["audit_type"] != W.POLLING and
                 all(c["choice_function"] in (W.PLURALITY, W.APPROVAL) for c in case["world"]["contests"].values()))
     case["margins_via_tally"] = bool(tally_ok and rng.chance(0.5))
@@ -270,6 +272,8 @@ class Model:
         self.compare(run, self.ref, p_max, "round")
         self.check_done(run, done, "round")
         rnd = run.case["rounds"][r]
+        if rnd.get("correct_record") and not run.polling:
+            self.corrected_record(run, r)
         for _ in range(rnd.get("summaries", 0)):
             with W.quiet():
                 d2 = run.audit.summarize_status(run.contests)
@@ -289,6 +293,55 @@ class Model:
                 d3 = run.audit.summarize_status(run.contests)
             self.check_done(run, d3, "after-reset")
 
+    def corrected_record(self, run, r):
+        """a manual record in the sample turns out to belong to another card: it is replaced (in the same list) by an
+        'unfindable' record and the p-values are set again; what is recorded must be what each test returns on the data
+        as they now stand (scored pair by pair here, not through mvrs_to_data).  Then the record is put back."""
+        out, ns = self.out, run.ns
+        js = [j for j, (m, c) in enumerate(zip(run.mvr_sample, run.cvr_sample)) if not m.phantom and not c.phantom]
+        if not js:
+            return
+        j = js[len(js) // 2]
+        flags = {(cid, key): asn.proved for cid, con in run.contests.items() for key, asn in con.assertions.items()}
+        old = run.mvr_sample[j]
+        run.mvr_sample[j] = ns.CVR(id=old.id, votes={}, phantom=True)
+        out.probe("record in the sample replaced in place, p-values set again")
+        out.faults["F17 manual record replaced in the sample list between two evaluations"] += 1
+        style = run.use_style
+        try:
+            with W.quiet():
+                ns.Assertion.set_p_values(contests=run.contests, mvr_sample=run.mvr_sample, cvr_sample=run.cvr_sample)
+            for cid, con in run.contests.items():
+                if run.world["contests"][cid]["audit_type"] == W.POLLING:
+                    continue
+                for key, asn in con.assertions.items():
+                    with W.quiet():
+                        d = [asn.overstatement_assorter(mm, cc, use_style=style) for mm, cc in zip(run.mvr_sample, run.cvr_sample)
+                             if (not style) or (cc.has_contest(cid) and cc.sample_num <= con.sample_threshold)]
+                        p, h = W.spec_test(ns, run.world["contests"][cid], asn, asn.test.u).test(np.array(d, dtype=float))
+                    if not tight(float(asn.p_value), float(p)):
+                        out.violate("C09.a", f"corrected-record/{run.world['contests'][cid]['test']}",
+                                    f"{cid}/{key}: after record {old.id} was replaced in the sample and the p-values set again, the "
+                                    f"recorded p is {float(asn.p_value)!r}; the configured test on the data as they now stand gives {float(p)!r}")
+        except Exception as e:
+            out.raised("set_p_values(corrected record)", e)
+        finally:
+            run.mvr_sample[j] = old
+            for (cid, key), f in flags.items():  # 'confirmed' is sticky; what the other record confirmed does not count
+                run.contests[cid].assertions[key].proved = f
+            try:
+                with W.quiet():
+                    ns.Assertion.set_p_values(contests=run.contests, mvr_sample=run.mvr_sample, cvr_sample=run.cvr_sample)
+            except Exception as e:
+                out.raised("set_p_values(record put back)", e)
+        for cid, con in run.contests.items():
+            for key, asn in con.assertions.items():
+                rf = self.ref.get((cid, key))
+                if rf is not None and not tight(float(asn.p_value), rf[0]):
+                    out.violate("C09.a", f"record-put-back/{run.world['contests'][cid]['test']}",
+                                f"{cid}/{key}: with the original record back in the sample the recorded p is {float(asn.p_value)!r}, "
+                                f"before the replacement it was {rf[0]!r}")
+
     def after_setup(self, run):
         """C09.e: mis-configured contests must be refused"""
         out = self.out
@@ -306,6 +359,8 @@ class Model:
                 con.risk_limit = -0.05
             elif kind == "risk-above-half":
                 con.risk_limit = 0.51
+            elif kind == "risk-just-above-half":
+                con.risk_limit = [0.500004, 0.5 + 1e-9, float(np.nextafter(0.5, 1))][sum(map(ord, cid)) % 3]
             elif kind == "winner-not-candidate":
                 con.winner = ["nobody"] + list(con.winner)[1:]
             elif kind == "winner-count":
@@ -347,7 +402,7 @@ def reducers(case):
         del c["misconfig"][i]
         yield c
     for i, rnd in enumerate(case["rounds"]):
-        for flag in ("dry_run", "reset_after"):
+        for flag in ("dry_run", "reset_after", "correct_record"):
             if rnd.get(flag):
                 c = copy.deepcopy(case)
                 c["rounds"][i][flag] = False
